@@ -198,6 +198,14 @@ impl PollCase {
             serde_json::from_value(doc).unwrap()
         };
 
+        // glue bit 5: the response value has been polled BEFORE (an earlier attempt the user declined, an hour earlier by that
+        // attempt's clock): a poll run counts the lifetime from ITS OWN start, nothing carries over inside the response
+        if self.glue & 32 == 32 {
+            let earlier = ns_to_dt(self.t0_ns.saturating_sub(3_600 * NS));
+            let deny = |_r: HttpRequest| -> Result<HttpResponse, FakeErr> { reply_for(4) };
+            let _ = client.exchange_device_access_token(&dar).set_time_fn(move || earlier).request(&deny, |_d: Duration| {}, None);
+            let _ = client.exchange_device_access_token(&dar.clone()).set_time_fn(move || earlier).request(&deny, |_d: Duration| {}, None);
+        }
         let w_time = world.clone();
         let (t0, mode, offsets) = (self.t0_ns, self.clock_mode, self.offsets_ns.clone());
         let time_fn = move || -> DateTime<Utc> {
@@ -277,6 +285,7 @@ impl PollCase {
                 None => rq,
             }
         };
+        let mut early_events = 0usize;
         let res = if variant == 0 {
             rq.request(&on_call, on_sleep, timeout)
         } else {
@@ -290,7 +299,11 @@ impl PollCase {
                 let os = on_sleep.clone();
                 Delay { left: ps, run: Some(move || os(d)) }
             };
-            drive(rq.request_async(&http, sleep, timeout)).0
+            // the future is inert until it is polled: creating it reads no clock, sends nothing, sleeps not at all (a caller may
+            // create it now and drive it later — the deadline then counts from when it is driven, as for the blocking call)
+            let fut = rq.request_async(&http, sleep, timeout);
+            early_events = world.lock().unwrap().events.len();
+            drive(fut).0
         };
         let tok = match &res {
             Ok(t) => {
@@ -316,6 +329,10 @@ impl PollCase {
         };
         let mut w = world.lock().unwrap();
         w.events.push(tok);
+        if early_events > 0 {
+            // only ever present when the library did work at future-creation time (never on a sound tree)
+            w.events.push(format!("early{early_events}"));
+        }
         (w.events.clone(), w.clock_vals.clone())
     }
 }
@@ -435,7 +452,7 @@ impl CaseInput for PollCase {
             pend_http: r.below(4) as u32,
             pend_sleep: r.below(4) as u32,
             bad_uri: r.chance(1, 25),
-            glue: r.below(32) as u8,
+            glue: r.below(64) as u8,
             real_latency_ms: 0,
         }
     }
@@ -482,7 +499,7 @@ impl CaseInput for PollCase {
                         pend_http: (ei % 3) as u32,
                         pend_sleep: (ei % 2) as u32,
                         bad_uri: false,
-                        glue: (ei % 32) as u8,
+                        glue: (ei % 64) as u8,
                         real_latency_ms: 0,
                     });
                 }
@@ -495,6 +512,12 @@ impl CaseInput for PollCase {
         let (trace, clock) = self.run_variant(self.variant);
         let (other, _) = self.run_variant(1 - self.variant);
         let mut oracle: Vec<(String, String)> = Vec::new();
+        for tr in [&trace, &other] {
+            if let Some(e) = tr.iter().find(|e| e.starts_with("early")) {
+                oracle.push(("C17:work-before-first-poll".into(), format!("{} event(s) (clock readings / requests / sleeps) happened when the future was CREATED, before its first poll", &e[5..])));
+                break;
+            }
+        }
         if trace != other {
             oracle.push(("C08:variants-differ".into(), format!("variant {} trace {:?} vs variant {} trace {:?}", self.variant, trace, 1 - self.variant, other)));
         }
